@@ -122,8 +122,6 @@ def build(tool, target_dir, miri_hooks):
 
 FRAME_FN = re.compile(r"^\s*(\d+): (.+)$")
 FRAME_AT = re.compile(r"^\s*at (\S+?):(\d+):\d+")
-SAN_FRAME = re.compile(r"^\s*#(\d+) (?:0x[0-9a-f]+ in )?(.+?) (\S+?):(\d+)(?::\d+)?(?: \(.*\))?\s*$")
-SAN_FRAME_NOSYM = re.compile(r"^\s*#(\d+) (?:0x[0-9a-f]+ in )?(\S.*?)\s+\((\S+\+0x[0-9a-f]+)\)")
 
 
 def short_fn(name):
@@ -246,33 +244,64 @@ def classify_miri(stderr, scenario):
     return (kind, sig, head)
 
 
+def parse_san_frame(l):
+    """`#4 [0xaddr in] FUNC PATH[:line[:col]] (module+0x..) (BuildId: ..)` -> (fn, path, line) or None"""
+    m = re.match(r"^\s*#\d+ (?:0x[0-9a-f]+ in )?(.*)$", l)
+    if not m:
+        return None
+    rest = m.group(1).rstrip()
+    while rest.endswith(")"):  # trailing (module+0x..) / (BuildId: ..) groups
+        i = rest.rfind(" (")
+        if i < 0:
+            break
+        rest = rest[:i].rstrip()
+    fn, path, line = rest, "", "0"
+    if " " in rest:
+        head, last = rest.rsplit(" ", 1)
+        if "/" in last or re.search(r"\.\w+(:\d+)*$", last):
+            fn = head
+            pm = re.match(r"^(.*?)(?::(\d+))?(?::\d+)?$", last)
+            path, line = pm.group(1), pm.group(2) or "0"
+    return (fn, path, line)
+
+
 def san_stacks(stderr):
     """Splits a TSan/ASan report into stacks: list of (title, [(fn, file, line)])."""
     stacks = []
     cur = None
     for l in stderr.splitlines():
-        fm = SAN_FRAME.match(l)
-        if fm and cur is not None:
-            cur[1].append((fm.group(2), fm.group(3), fm.group(4)))
-            continue
-        nm = SAN_FRAME_NOSYM.match(l)
-        if nm and cur is not None:
-            cur[1].append((nm.group(2), nm.group(3), "0"))
+        f = parse_san_frame(l)
+        if f is not None:
+            if cur is not None:
+                cur[1].append(f)
             continue
         s = l.strip()
         if s.endswith(":") and not s.startswith("#"):
             cur = (s.rstrip(":"), [])
             stacks.append(cur)
+        elif re.match(r"^(READ|WRITE) of size", s):
+            cur = (s, [])
+            stacks.append(cur)
     return stacks
+
+
+def repo_frame_name(fn, path):
+    if in_repo(path):
+        return "%s:%s" % (rel_repo(path), short_fn(fn))
+    m = re.search(r"s2n_quic_core::((?:\w+::)+)", fn)
+    if m:
+        mods = [x for x in m.group(1).split("::") if x and x[0].islower()]
+        if mods and mods[0] == "sync":
+            mods = mods[1:]
+        return "%s.rs:%s" % ("/".join(mods), short_fn(fn))
+    return None
 
 
 def first_repo_frame(frames):
     for fn, path, _line in frames:
-        if in_repo(path):
-            return "%s:%s" % (rel_repo(path), short_fn(fn))
-    for fn, path, _line in frames:
-        if "s2n_quic_core" in fn:
-            return short_fn(fn)
+        n = repo_frame_name(fn, path)
+        if n:
+            return n
     return None
 
 
@@ -283,14 +312,15 @@ def classify_san(tool, stderr, scenario):
     kind = m.group(2).strip().split(" on address")[0].strip().replace(" ", "-")
     if kind.startswith("detected-memory-leaks"):
         kind = "leak"
-    stacks = [s for s in san_stacks(stderr) if s[1]]
+    # the access stack and the conflicting (previous access / freed by) stack; not the
+    # allocation / thread-creation stacks
+    skip = ("allocated by", "created by", "Location is", "Mutex ")
+    stacks = [s for s in san_stacks(stderr) if s[1] and not any(k in s[0] for k in skip)]
     pair = []
-    for title, frames in stacks:
+    for title, frames in stacks[:2]:
         f = first_repo_frame(frames)
-        if f and f not in pair:
+        if f:
             pair.append(f)
-        if len(pair) == 2:
-            break
     if not pair:
         pair = [scenario]
     sig = "%s:%s:%s" % (tool, kind, "<->".join(pair))
